@@ -20,7 +20,7 @@ import ast
 from ..effects import Effects
 from ..loader import dotted, norm
 from ..paths import Walker, truth
-from ..structure import enclosing, parents
+from ..structure import catches, enclosing, enclosing_tries, parents
 
 MUTATORS = {"append", "extend", "insert", "remove", "pop", "sort", "reverse", "clear", "update", "add", "discard",
             "setdefault", "popitem", "__setitem__"}
@@ -354,6 +354,82 @@ def worker_state_obligations(ctx, rep, rule="R14f"):
         rep.ok(rule, "no threading server class", "pygopherd/server.py", "", key=f"{rule}|none", nontrivial=False)
 
 
+
+def class_mutable_obligations(ctx, rep, rule="R14g"):
+    """A set, dict or list written in the class body is one object for every instance - every request, every archive, every worker
+    thread: methods may only change it in place when instances get their own (an assignment to `self.X` somewhere in the class)."""
+    prog = ctx.prog
+    n, found = 0, []
+    for mod in prog.modules.values():
+        if not mod.name.startswith("pygopherd") or ".tests" in mod.name or mod.name.endswith("testutil"):
+            continue
+        for C in mod.classes.values():
+            for name, val in C.attrs.items():
+                mutable = isinstance(val, (ast.Dict, ast.List, ast.Set, ast.ListComp, ast.DictComp, ast.SetComp)) or (
+                    isinstance(val, ast.Call) and (dotted(val.func) or "") in ("set", "dict", "list", "bytearray", "collections.defaultdict", "collections.deque",
+                                                                                "collections.OrderedDict", "defaultdict", "deque", "OrderedDict"))
+                if not mutable:
+                    continue
+                n += 1
+                family = [c for c in prog.subclasses(C)] if hasattr(prog, "subclasses") else [C]
+                own = any(isinstance(x, (ast.Assign, ast.AnnAssign)) and any(
+                    isinstance(t, ast.Attribute) and dotted(t.value) == "self" and t.attr == name
+                    for t in (x.targets if isinstance(x, ast.Assign) else [x.target]))
+                    for K in [C] + family for m in K.methods.values() for x in ast.walk(m.node))
+                if own:
+                    continue
+                for K in [C] + family:
+                    for m in K.methods.values():
+                        for x in ast.walk(m.node):
+                            if isinstance(x, ast.Call) and isinstance(x.func, ast.Attribute) and x.func.attr in _MUTATORS \
+                                    and dotted(x.func.value) in (f"self.{name}", f"cls.{name}", f"{C.name}.{name}"):
+                                found.append((m, x, C, name))
+                            if isinstance(x, (ast.Assign, ast.AugAssign)):
+                                for t in (x.targets if isinstance(x, ast.Assign) else [x.target]):
+                                    if isinstance(t, ast.Subscript) and dotted(t.value) in (f"self.{name}", f"cls.{name}", f"{C.name}.{name}"):
+                                        found.append((m, x, C, name))
+    seen = set()
+    for m, x, C, name in found:
+        key = (m.qualname, name)
+        if key in seen:
+            continue
+        seen.add(key)
+        rep.add(rule, f"{m.qualname}: {norm(x)[:50]}", False, ctx.where(m, x),
+                f"`{name}` is created once in the body of class {C.name} and no method gives an instance its own: `{norm(x)[:40]}` changes the one object all "
+                "requests (and all worker threads) share - what one client's request records shows up in every other client's answers",
+                key=f"{rule}|{m.qualname}|{name}")
+    if not found:
+        rep.ok(rule, f"no class-level container is changed in place through an instance [{n} class-level containers]", "pygopherd", "", key=f"{rule}|none")
+
+
+
+def store_writer_obligations(ctx, rep, rule="R14h"):
+    """Two requests may write the same dbm/shelve cache at once.  Asking for a new store (flag 'n' / 'c') does not mean nothing
+    is read: dbm.dumb re-reads the directory file, which the other writer may be half-way through - the failure is a SyntaxError
+    or ValueError, not an OSError.  The write is optional, so its guard has to cover those classes too."""
+    prog = ctx.prog
+    n = 0
+    for f in prog.all_functions():
+        if not f.module.name.startswith("pygopherd.handlers") or ".tests" in f.module.name:
+            continue
+        for c in ast.walk(f.node):
+            if not (isinstance(c, ast.Call) and (dotted(c.func) or "") in ("shelve.open", "dbm.open", "dbm.dumb.open")):
+                continue
+            flag = c.args[1] if len(c.args) > 1 else next((k.value for k in c.keywords if k.arg == "flag"), None)
+            fv = flag.value if isinstance(flag, ast.Constant) else ("c" if flag is None else "?")
+            if fv == "r":
+                continue
+            n += 1
+            tries = enclosing_tries(f.node, c)
+            missing = [e for e in ("OSError", "ValueError", "SyntaxError") if not any(catches(h, e) for tr in tries for h in tr.handlers)]
+            rep.add(rule, f"{f.qualname}: {norm(c)[:50]} (writer)", not missing, ctx.where(f, c),
+                    "" if not missing else f"the store is (re)created under a guard that does not catch {', '.join(missing)}: with the dbm.dumb backend a second "
+                    "request writing the same cache at that moment leaves a half-written directory file, which this open reads - the error escapes and "
+                    "the request that would have been answered alone gets no reply", key=f"{rule}|{f.qualname}")
+    if not n:
+        rep.ok(rule, "no dbm/shelve store is written by the handlers", "pygopherd/handlers", "", key=f"{rule}|none", nontrivial=False)
+
+
 def check(ctx, rep):
     prog = ctx.prog
     eff = Effects(prog, ctx.resolver)
@@ -365,6 +441,12 @@ def check(ctx, rep):
              "against each way such a file fails, and regenerates", floor=2)
     from .c11 import loader_guard_obligations
     loader_guard_obligations(ctx, rep, eff, "R14e")
+    rep.rule("R14h", "a dbm/shelve cache is (re)created under a guard that also covers what a racing second writer causes (SyntaxError / ValueError "
+             "from the half-written directory file dbm.dumb reads back), not only OSError - see D43", floor=0)
+    store_writer_obligations(ctx, rep, "R14h")
+    rep.rule("R14g", "a container written in a class body is changed in place only when instances get their own (`self.X = ...` in the class): "
+             "otherwise it is one object shared by every request and thread", floor=1)
+    class_mutable_obligations(ctx, rep, "R14g")
     rep.rule("R14f", "what a worker thread runs on the server object (process_request_thread, wrap_socket, ...) only reads that object: no attribute "
              "assigned, no container or buffer of the server changed in place - the object is shared by all workers", floor=1)
     worker_state_obligations(ctx, rep, "R14f")
